@@ -210,6 +210,24 @@ fn mentions_unserializable(r: &Rule) -> bool {
 }
 
 pub fn check_text(_ctx: &Ctx, c: &TCase, obs: &mut Obs) -> CheckResult {
+    check_text_inner(c, obs)
+}
+
+/// Entry point of the libFuzzer target (`/verif/fuzz/fuzz_targets/c09_roundtrip.rs`): the bytes are
+/// read as the choice tape of the rule-text grammar and the same round-trip oracle runs inside the
+/// target. The open known finding is tolerated so that a campaign does not stop at it.
+pub fn fuzz_one(data: &[u8]) -> Result<(), String> {
+    let tape: Vec<u16> = data.chunks(2).map(|c| u16::from_le_bytes([c[0], c.get(1).copied().unwrap_or(0)])).collect();
+    let c = gen_rule_text(&tape);
+    let mut obs = Obs::default();
+    match check_text_inner(&c, &mut obs) {
+        Ok(()) => Ok(()),
+        Err(f) if f.known.as_deref() == Some(K_VECTOR_PLACEHOLDER) => Ok(()),
+        Err(f) => Err(format!("{}: {}", f.kind, f.detail)),
+    }
+}
+
+fn check_text_inner(c: &TCase, obs: &mut Obs) -> CheckResult {
     let rule = match parse_rule(&c.text) {
         Ok(r) => r,
         Err(e) => {
@@ -422,6 +440,13 @@ pub fn run(ctx: &Ctx) {
          store. Non-trivial = the rule has a non-integer constant or an arithmetic/function/aggregate term. Distinct = rule text.",
     );
     ctx.assume("only ASTs the parser itself produces are printed (obtained by parsing generated text), so the printer is never blamed for ASTs no caller can build");
+    // thorough tier: statistics of the coverage-guided campaign that run.sh ran just before (libFuzzer over the
+    // same choice tape, same oracle inside the target; see harness/fuzz/fuzz_targets/c09_roundtrip.rs)
+    if let Ok(p) = std::env::var("VERIF_FUZZ_STATS") {
+        if let Ok(txt) = std::fs::read_to_string(&p) {
+            ctx.note(format!("coverage-guided campaign (libFuzzer): {txt}"));
+        }
+    }
     ctx.run_part("round_trip", ctx.cases(20_000, 400_000), || tape_strategy(70).prop_map(|t| gen_rule_text(&t)), |c, o| check_text(ctx, c, o));
     ctx.run_part("behaviour", ctx.cases(400, 6_000), || tape_strategy(12).prop_map(|t| gen_exec_rule(&t)), |c, o| check_behaviour(ctx, c, o));
 }
